@@ -59,6 +59,20 @@ static int cmp(const void * a, const void * b, void * p)
     return s;
 }
 
+/* comparison used by find: the documented order of the arguments is (the caller's object, an object of the list)
+ * ("comparing the user-supplied object with objects in the list"); a comparison that tells the two apart - a probe of
+ * another shape than the elements - only works in that order */
+static int cmp_find(const void * a, const void * b, void * p)
+{
+    const struct elem * x = a, * y = b;
+    if (x->id != -7 || y->id < 0) {
+        printf("badorder\n");
+        fflush(stdout);
+        _exit(3);
+    }
+    return cmp(a, b, p);
+}
+
 static int vis_log[4 * MAXE], vis_n, vis_stop, vis_erase;
 static int vsign = 1;   /* sign of the visitor's non-zero answer (header vsign); the result is printed times vsign */
 static struct cstl_dlist * vis_list, * vis_other;
@@ -172,7 +186,7 @@ static void run_case(const struct h_case * c)
         else if (h_weq(l, 0, "find")) {
             struct elem probe;
             probe.key = b; probe.id = -7; probe.dn.n = probe.dn.p = JUNK;
-            printf("ok %d", idof(cstl_dlist_find(&lists[a], &probe, cmp, H_COOKIE, pdir(l, 3))));
+            printf("ok %d", idof(cstl_dlist_find(&lists[a], &probe, cmp_find, H_COOKIE, pdir(l, 3))));
         }
         else if (h_weq(l, 0, "swap")) {
             if (b < 0 || b >= nlists || a == b) { printf("precond\n"); return; }
